@@ -26,7 +26,8 @@ for seed, tiers in ((1, ("quick", "thorough")), (2, ("quick", "thorough")), (3, 
                                    tiers={t: {} for t in tiers})
         if n == "distrib":
             h.update(object_bits=13, bounds="seed topology S%d; roots in {machine, both packages, package 1} x n in 0..NMAX x until in {1, INT_MAX} (thorough: {-1,1,2,3,INT_MAX}) x REVERSE enumerated as concrete runs; remaining flag bits symbolic" % seed)
-            h["tiers"] = {t: ({"defines": {"NMAX": 3}} if t == "quick" else {"defines": {"NU": 5, "UNTILS": "{-1,1,2,3,2147483647}"}, "timeout": 6000}) for t in tiers}
+            h["tiers"] = {"thorough": {"defines": {"NMAX": 3}, "timeout": 8000}}      # stretch: no verdict within the quick budget
+            h["core"] = False
         if n == "closest": h.update(bounds="seed topology S%d; every source object (enumerated), max 0..5 symbolic" % seed)
         if n == "iterators": h.update(bounds="seed topology S%d; every depth -2..7 (enumerated); set and index symbolic" % seed)
         HARNESSES.append(h)
